@@ -92,4 +92,38 @@ mod verif_kani_error_harness {
         let r = translate_position(&a, index);
         kani::cover!(r.0 > 0);
     }
+
+    // ------------------------------------------------------------------ K15: rendering never panics (tiny documents)
+    // Display for TomlError on every valid-UTF-8 document of N bytes and every span
+    // start <= end <= N with start on a character boundary: no panic (expect / subtraction /
+    // slicing), through the real core::fmt.  Bounded: N bytes.
+    fn render<const N: usize>() {
+        let a: [u8; N] = kani::any();
+        let raw = match core::str::from_utf8(&a) {
+            Ok(s) => s,
+            Err(_) => return,
+        };
+        let start: usize = kani::any();
+        let end: usize = kani::any();
+        kani::assume(start <= end && end <= N);
+        kani::assume(start == N || (a[start] & 0xC0) != 0x80);
+        let e = TomlError {
+            message: String::new(),
+            raw: Some(String::from(raw)),
+            keys: Vec::new(),
+            span: Some(start..end),
+        };
+        let text = e.to_string();
+        kani::cover!(text.len() > 0);
+        core::mem::forget(text);
+        core::mem::forget(e);
+    }
+
+    #[kani::proof]
+    #[kani::unwind(12)]
+    fn k15_render_n1() { render::<1>(); }
+
+    #[kani::proof]
+    #[kani::unwind(14)]
+    fn k15_render_n2() { render::<2>(); }
 }
